@@ -41,7 +41,7 @@ impl Default for Cfg {
     }
 }
 
-pub const NAMES: [&str; 14] = ["r", "ra", "rab", "rb", "x.y", "dep-1", "D", "r_2", "a", "z9", "R", "Ra", "d", "A"];
+pub const NAMES: [&str; 18] = ["r", "ra", "rab", "rb", "x.y", "dep-1", "D", "r_2", "a", "z9", "R", "Ra", "d", "A", "dep.", ".h", "a..b", "-"];
 pub const OPNAMES: [&str; 19] = ["$a", "$ab", "$b", "$c", "$a_1", "$az", "$azure_1", "$a0", "$aZ", "$a-x", "$a-y", "$a\u{e9}", "$a{", "$a.b", "$a~", "$a1", "$a01", "$a001", "$a10"];
 /// an operand name the condition grammar can spell (the others are reachable through `them` and prefixes only)
 pub fn spellable(n: &str) -> bool {
